@@ -20,6 +20,8 @@ from __future__ import annotations
 
 import json
 import re
+import signal
+import threading
 from typing import Any, Dict, List, Optional
 
 import pyglove as pg
@@ -90,6 +92,49 @@ def _exc_name(e: BaseException) -> str:
     if isinstance(e, c):
       return c.__name__
   return type(e).__name__
+
+
+_CYCLIC_REPR_BUDGET = 6      # FAILING repr calls on cyclic resolutions per process (each may run into the timer)
+
+
+class _Timeout(BaseException):
+  """Raised by the alarm; a BaseException so that `except Exception` inside PyGlove does not swallow it."""
+
+
+def _can_time_out() -> bool:
+  return threading.current_thread() is threading.main_thread() and hasattr(signal, 'setitimer')
+
+
+def _nesting(s: str) -> int:
+  depth = best = 0
+  for ch in s:
+    if ch in '([{':
+      depth += 1
+      best = max(best, depth)
+    elif ch in ')]}':
+      depth -= 1
+  return best
+
+
+def _call_with_timeout(f, seconds: float, max_nesting: int) -> str:
+  """'ok', the exception class name, 'hang' (did not return within `seconds`) or 'runaway' (the text nests
+  deeper than any print-out that visits each node at most once could)."""
+  timed = _can_time_out()
+  def on_alarm(signum, frame):
+    raise _Timeout()
+  if timed:
+    old = signal.signal(signal.SIGALRM, on_alarm)
+    signal.setitimer(signal.ITIMER_REAL, seconds)
+  try:
+    return 'ok' if _nesting(f()) <= max_nesting else 'runaway'
+  except _Timeout:
+    return 'hang'
+  except Exception as e:  # pylint: disable=broad-except
+    return _exc_name(e)
+  finally:
+    if timed:
+      signal.setitimer(signal.ITIMER_REAL, 0)
+      signal.signal(signal.SIGALRM, old)
 
 
 def _safe(v) -> str:
@@ -392,30 +437,44 @@ class Replayer:
         else:
           self.hit('read:iter')
 
-  def check_repr(self, st: dict):
-    """repr / str of a ContextualObject print inferred values: they must return (clause `repr`)."""
+  def check_repr(self, st: dict, step: int = 0):
+    """repr / str of a ContextualObject print inferred values: they must return (clause `repr`).
+
+    Where TLC says that resolved values lead back to a node being printed (cyc) the call is made under a
+    timer and only a few times per run: on the unchanged tree it does not terminate in any useful time
+    (finding G02-F2), so it cannot be made at every state."""
+    global _CYCLIC_REPR_BUDGET
     for n, o in self.obj.items():
       if not isinstance(o, CO) or st['kind'][n - 1] == 'free':
         continue
-      for fn in (repr, str):
-        try:
-          fn(o)
-          self.hit('repr:ok')
-        except Exception as e:  # pylint: disable=broad-except
-          self.divergences.append({
-              'clause': 'repr',
-              'sig': {'clause': 'repr', 'got': _exc_name(e), 'cyclic': bool(st['cyc'][n - 1])},
-              'detail': f'node {n}: {fn.__name__}() raised {_exc_name(e)}; TLC says resolved values '
-                        f'{"can" if st["cyc"][n - 1] else "cannot"} lead back to a node being printed'})
-      if st['cyc'][n - 1]:
+      cyclic = bool(st['cyc'][n - 1])
+      if not cyclic and step % 4:
+        continue
+      if cyclic:
         self.hit('repr:cyclic')
+        if _CYCLIC_REPR_BUDGET <= 0 or not _can_time_out():
+          continue
+      for fn in (repr, str):
+        status = _call_with_timeout(lambda: fn(o), 0.5 if cyclic else 20.0,   # pylint: disable=cell-var-from-loop
+                                    max_nesting=3 * len(st['kind']) + 3)
+        if status == 'ok':
+          self.hit('repr:ok')
+          continue
+        self.divergences.append({
+            'clause': 'repr',
+            'sig': {'clause': 'repr', 'got': status, 'cyclic': cyclic},
+            'detail': f'node {n}: {fn.__name__}() gives {status}; TLC says resolved values '
+                      f'{"can" if cyclic else "cannot"} lead back to a node being printed'})
+        if cyclic:
+          _CYCLIC_REPR_BUDGET -= 1
+          break
 
   # ---- the behaviour ------------------------------------------------------------------------
-  def compare(self, actname: str, st: dict):
+  def compare(self, actname: str, st: dict, step: int = 0):
     self.check_stored(actname, st)
     before = self.snapshot(st)
     self.check_reads(actname, st)
-    self.check_repr(st)
+    self.check_repr(st, step)
     after = self.snapshot(st)
     if before != after:
       bad = [n for n in before if before[n] != after.get(n)]
@@ -473,7 +532,7 @@ class Replayer:
         if act[0] in ('Set', 'Insert') and act[-1] in self.obj and act[-1] < 100:
           self.hit('attach')
         self._count_resolution_changes(beh[step - 1].state, st)
-        self.compare(act[0], st)
+        self.compare(act[0], st, step)
         for d in self.divergences[n_before:]:
           d['step'] = step
       return None
